@@ -12,6 +12,7 @@ mod strmc;
 mod serdemc;
 mod fmtmc;
 mod laymc;
+mod diagmc;
 mod workers;
 mod run;
 mod hostobj;
@@ -67,6 +68,7 @@ fn main() {
         "serdemc" => serdemc::run(&args),
         "fmtmc" => fmtmc::run(&args),
         "laymc" => laymc::run(&args),
+        "diagmc" => diagmc::run(&args),
         "progmc-core" => progmc::run_profile(
             &args,
             run::RunCfg::default(),
